@@ -43,6 +43,6 @@ static inline void spec_schema_levels(const spec_node_t *nodes, int32_t n, spec_
       sp++; rem[sp] = nodes[i].num_children; sd[sp] = d; sr[sp] = r;
     }
   }
-  for (int p = 0; p <= SPEC_SCHEMA_MAXN; p++) { if (p <= sp && rem[p] != 0) out->wf = 0; }   /* missing children */
+  for (int p = 0; p < SPEC_SCHEMA_MAXN; p++) { if (p <= sp && rem[p] != 0) out->wf = 0; }   /* missing children (sp <= n - 2) */
 }
 #endif
